@@ -762,6 +762,55 @@ done:
   heap_reset();
 }
 
+/* xmk kind k payload save copynone w seed: transform of a source that carries extra markers inserted behind its
+   JFIF segment: kind 0 = an ICC profile of `payload` bytes split into k APP2 chunks (any chunking is legal),
+   kind 1 = a COM marker, kind 2 = an APP1 (EXIF-like) marker of `payload` bytes (k ignored).  NOREALLOC transform
+   into exactly tj3TransformBufSize() bytes, no instance profile. */
+static void run_xmk(char *p)
+{
+  int kind = strtol(p, &p, 10), k = strtol(p, &p, 10); long payload = strtol(p, &p, 10); int sm = strtol(p, &p, 10), cn = strtol(p, &p, 10);
+  int w = strtol(p, &p, 10); long seed = strtol(p, &p, 10); int h = w, rc, rc2, i;
+  unsigned char *img = make_image(2, w, h, 3, seed), *src = NULL, *s2, *q, *ref = NULL, *buf; size_t srcsize = 0, n2, cap, base, size, total = 0;
+  tjhandle c = tj3Init(TJINIT_COMPRESS), x = tj3Init(TJINIT_TRANSFORM); tjtransform xf; const char *st;
+  size_t save_lgn = lgn; int save_nblk = nblk;
+  tj3Set(c, TJPARAM_QUALITY, 75); tj3Set(c, TJPARAM_SUBSAMP, TJSAMP_444);
+  { size_t cap0 = 1 << 20; unsigned char *b0 = malloc(cap0); src = b0; srcsize = cap0;
+    rc = tj3Compress8(c, img, w, 0, h, TJPF_RGB, &src, &srcsize); if (rc || src != b0) { printf("xmk setup-failed\n"); return; } }
+  s2 = malloc(srcsize + (size_t)payload + 32 * (size_t)(k > 0 ? k : 1) + 64);
+  memcpy(s2, src, 20); q = s2 + 20;                    /* SOI + JFIF APP0 (2 + 2 + 16) */
+  if (kind == 0) {
+    long done = 0;
+    for (i = 1; i <= k; i++) {
+      long nch = payload / k + (i <= payload % k ? 1 : 0), j;
+      *q++ = 0xFF; *q++ = 0xE2; *q++ = (unsigned char)((nch + 16) >> 8); *q++ = (unsigned char)((nch + 16) & 255);
+      memcpy(q, "ICC_PROFILE", 12); q += 12; *q++ = (unsigned char)i; *q++ = (unsigned char)k;
+      for (j = 0; j < nch; j++) *q++ = (unsigned char)((done + j) * 7 + 3);
+      done += nch;
+    }
+  } else {
+    long j; *q++ = 0xFF; *q++ = kind == 1 ? 0xFE : 0xE1; *q++ = (unsigned char)((payload + 2) >> 8); *q++ = (unsigned char)((payload + 2) & 255);
+    if (kind == 2 && payload >= 6) { memcpy(q, "Exif\0\0", 6); q += 6; j = 6; } else j = 0;
+    for (; j < payload; j++) *q++ = (unsigned char)(j * 5 + 1);
+  }
+  memcpy(q, src + 20, srcsize - 20); n2 = (size_t)(q - s2) + srcsize - 20;
+  memset(&xf, 0, sizeof xf); xf.op = TJXOP_NONE; xf.options = TJXOPT_TRIM | (cn ? TJXOPT_COPYNONE : 0);
+  tj3Set(x, TJPARAM_SAVEMARKERS, sm);
+  if (tj3DecompressHeader(x, s2, n2)) { printf("xmk header-failed %s\n", tj3GetErrorStr(x)); goto done; }
+  cap = tj3TransformBufSize(x, &xf); base = tj3JPEGBufSize(w, h, TJSAMP_444);
+  size = 0; rc = tj3Transform(x, s2, n2, 1, &ref, &size, &xf);
+  if (rc == 0) total = size;
+  if (ref) dm_free(ref, 1);
+  tj3Set(x, TJPARAM_NOREALLOC, 1);
+  buf = dm_alloc(cap, 1, 0, NULL); size = cap;
+  { unsigned char *b0 = buf; rc2 = tj3Transform(x, s2, n2, 1, &buf, &size, &xf);
+    st = rc2 == 0 ? (size <= cap && buf == b0 ? "ok" : "BADSIZE") : strstr(tj3GetErrorStr(x), "too small") ? "bufsize" : "other"; }
+  printf("xmk term=%ld total=%zu cap=%zu norealloc=%s\n", (long)cap - (long)base, total, cap, st);
+done:
+  free(s2); free(src); free(img); tj3Destroy(c); tj3Destroy(x);
+  (void)save_lgn; (void)save_nblk;
+  heap_reset();
+}
+
 /* hk prec pat nbw leave alloc: the longest codes a Huffman table can have (lengths 1..16, the 16-bit code
    1111111111111110 for the largest magnitude category) on coefficients of maximal magnitude, written with the
    libjpeg coefficient API (jpeg_write_coefficients) at data precision prec (8 or 12) into the TurboJPEG
@@ -844,6 +893,7 @@ int main(void)
     else if (!strncmp(line, "blk ", 4)) run_blk(line + 4);
     else if (!strncmp(line, "xicc ", 5)) { lgn = 0; run_xicc(line + 5); }
     else if (!strncmp(line, "hk ", 3)) run_hk(line + 3);
+    else if (!strncmp(line, "xmk ", 4)) { lgn = 0; run_xmk(line + 4); }
     else if (!strncmp(line, "icc ", 4)) {
       long n = strtol(line + 4, NULL, 10); spec_t s = { 1, 16, 16, TJPF_RGB, TJSAMP_420, 75, 1, 0, -1, 0 }; size_t a, b;
       a = reference(&s)->size; s.icc = n; b = reference(&s)->size;
